@@ -14,12 +14,16 @@
 package main
 
 import (
+	"bytes"
 	"context"
 	"encoding/json"
 	"flag"
 	"fmt"
 	"hash/fnv"
 	"os"
+	"os/exec"
+	"path/filepath"
+	"strings"
 	"sync"
 
 	"github.com/tetratelabs/wazero"
@@ -52,8 +56,119 @@ func hashKey(s string) string {
 	return fmt.Sprintf("%016x", h.Sum64())
 }
 
+var (
+	childMode = flag.Bool("hc04child", false, "internal: run the scenarios (the parent supervises: a crash of the process is a verdict about a scenario, not a fault of the harness)")
+	onlyKey   = flag.String("only", "", "internal: run only the scenario with this key")
+	progMu    sync.Mutex
+	progFile  *os.File
+)
+
+func progress(line string) {
+	if progFile == nil {
+		return
+	}
+	progMu.Lock()
+	fmt.Fprintln(progFile, line)
+	progMu.Unlock()
+}
+
+// supervise runs this binary as a child; if the child dies (fatal error, signal) the scenarios that were in flight
+// are re-run alone to find the one that kills the process.
+func supervise() {
+	self, err := os.Executable()
+	if err != nil {
+		hx.Fatal("executable: %v", err)
+	}
+	prog := filepath.Join(*hx.Work, "hc04-progress.txt")
+	runChild := func(extra ...string) (int, string) {
+		os.Remove(prog)
+		cmd := hx.Supervised(exec.Command(self, append(append([]string{}, os.Args[1:]...), append([]string{"-hc04child"}, extra...)...)...))
+		cmd.Env = append(os.Environ(), "HC04_PROGRESS="+prog)
+		var eb bytes.Buffer
+		cmd.Stdout, cmd.Stderr = os.Stdout, &eb
+		err := cmd.Run()
+		rc := 0
+		if err != nil {
+			rc = 2
+			if ee, ok := err.(*exec.ExitError); ok && ee.ExitCode() >= 0 {
+				rc = ee.ExitCode()
+			}
+		}
+		return rc, eb.String()
+	}
+	rc, stderr := runChild()
+	crashed := strings.Contains(stderr, "fatal error:") || strings.Contains(stderr, "unexpected fault address") || strings.Contains(stderr, "SIGSEGV") || strings.Contains(stderr, "SIGBUS")
+	if !crashed {
+		os.Stderr.WriteString(stderr)
+		os.Exit(rc)
+	}
+	// which scenarios were in flight?
+	inflight := map[string]bool{}
+	var order []string
+	if raw, err := os.ReadFile(prog); err == nil {
+		for _, ln := range strings.Split(string(raw), "\n") {
+			f := strings.SplitN(ln, " ", 2)
+			if len(f) != 2 {
+				continue
+			}
+			if f[0] == "BEGIN" {
+				inflight[f[1]] = true
+				order = append(order, f[1])
+			} else {
+				delete(inflight, f[1])
+			}
+		}
+	}
+	rep = hx.NewReport("C04", "supervisor: the child process running the scenarios died; scenarios in flight re-run alone")
+	tail := stderr
+	if len(tail) > 1500 {
+		tail = tail[:1500]
+	}
+	found := false
+	for _, k := range order {
+		if !inflight[k] {
+			continue
+		}
+		rep.Case("crash-isolation/" + k)
+		rc1, se := runChild("-only", k)
+		if strings.Contains(se, "fatal error:") || strings.Contains(se, "unexpected fault address") || strings.Contains(se, "SIGSEGV") || rc1 == 2 && strings.Contains(se, "goroutine ") {
+			found = true
+			t := se
+			if len(t) > 1200 {
+				t = t[:1200]
+			}
+			rep.Violate(hx.Violation{Kind: "impl-violation", Signature: "C04:process-crash", What: "the process running this scenario dies (earlier instances are not usable and consistent after it): " + firstLine(t),
+				Input: map[string]any{"scenario_key": k, "how_to": "hc04 -hc04child -only <key> with the same -seed/-tier"}, Actual: t})
+		}
+	}
+	if !found {
+		rep.Violate(hx.Violation{Kind: "impl-violation", Signature: "C04:process-crash", What: "the process running the scenarios died; none of the scenarios in flight reproduces it alone (timing / GC dependent): " + firstLine(tail),
+			Input: map[string]any{"in_flight": order, "seed": *hx.Seed, "tier": *hx.Tier}, Actual: tail})
+	}
+	rep.Write(nil)
+}
+
+func firstLine(s string) string {
+	for _, l := range strings.Split(s, "\n") {
+		if strings.Contains(l, "fatal error") || strings.Contains(l, "fault address") || strings.Contains(l, "panic:") {
+			return strings.TrimSpace(l)
+		}
+	}
+	if i := strings.IndexByte(s, '\n'); i > 0 {
+		return s[:i]
+	}
+	return s
+}
+
 func main() {
 	flag.Parse()
+	if !*childMode && *hx.Replay == "" {
+		supervise()
+		return
+	}
+	if p := os.Getenv("HC04_PROGRESS"); p != "" {
+		progFile, _ = os.OpenFile(p, os.O_CREATE|os.O_WRONLY|os.O_APPEND, 0o644)
+	}
 	rep = hx.NewReport("C04", "a case = one scenario (a graph of 2-4 modules with imports of every extern kind, interleaved reads/writes through "+
 		"each instance and the host API, failing instantiations in the middle) run on BOTH engines against the Lean store; distinct by the hash of "+
 		"(descriptors, operation list, memory limit); every case instantiates at least two linked modules")
@@ -110,6 +225,15 @@ func main() {
 				runScenario(sc)
 			}
 		}()
+	}
+	if *onlyKey != "" {
+		var one []*Scenario
+		for _, sc := range scs {
+			if sc.key() == *onlyKey {
+				one = append(one, sc)
+			}
+		}
+		scs = one
 	}
 	for i, sc := range scs {
 		rep.Count("scenario:" + sc.Tag)
